@@ -141,6 +141,11 @@ pub fn run_lines(sh: &mut shell::Shell,
 fn expand_args(line: &str, args: &[String]) -> String {
     let linfo = parsers::parser_line::parse_line(line);
     let mut tokens = linfo.tokens;
+    // re-rendering tokens to text is lossy (escapes, glued quotes); only do it
+    // when there is a positional parameter to substitute.
+    if !tokens.iter().any(|(sep, token)| sep != "`" && sep != "'" && is_args_in_token(token)) {
+        return line.to_string();
+    }
     expand_args_in_tokens(&mut tokens, args);
     parsers::parser_line::tokens_to_line(&tokens)
 }
